@@ -1041,7 +1041,49 @@ func TestFoFree(t *testing.T) {
 			}(g)
 		}
 
-		wg.Wait()
+		// watchdog: a Get that never returns must not hang the harness.  "No event at all for two minutes while Gets
+		// are outstanding" is far beyond anything load explains (every step of a Get is microseconds of work).
+		allDone := make(chan struct{})
+
+		go func() {
+			wg.Wait()
+			close(allDone)
+		}()
+
+		stuck := false
+		lastN, lastAt := int64(-1), time.Now()
+
+	waitLoop:
+		for {
+			select {
+			case <-allDone:
+				break waitLoop
+			case <-time.After(200 * time.Millisecond):
+				s.mu.Lock()
+				n := s.seq
+				s.mu.Unlock()
+
+				if n != lastN {
+					lastN, lastAt = n, time.Now()
+				} else if time.Since(lastAt) > 2*time.Minute {
+					stuck = true
+
+					break waitLoop
+				}
+			}
+		}
+
+		if stuck {
+			s.rec(Event{Ev: "stuck", N: fo.KeyLocks()})
+			s.mu.Lock()
+			evs := append([]Event(nil), s.events...)
+			s.mu.Unlock()
+			_ = enc.Encode(foOut{Cfg: cfg, B: ri, Events: evs})
+			res.Evaluations++
+			res.Extra["stuck_run"] = ri
+
+			return // goroutines of this run are lost: no further runs in this process
+		}
 
 		// background builds
 		for i := 0; i < 30000 && fo.KeyLocks() != 0; i++ { // up to 30 s on an overloaded machine; normally microseconds
